@@ -100,7 +100,7 @@ def run_check(prop, mod, tier, seed, t0):
     if (broken) and not failures and hasattr(mod, "search") and not res.get("crashed"):
         # a broken proof / correspondence is not by itself a violation: search for a failing input
         print(f"[{prop}] proof or correspondence broken; searching for a failing input ...")
-        failures = list(mod.search(mismatches, seed))
+        failures = list(run_isolated(mod, tier, seed, what="search", args=(mismatches, seed)))
     violations, known_hits = [], {}
     for f in failures:
         k = common.match_known(prop, f, known)
@@ -166,9 +166,12 @@ def run_check(prop, mod, tier, seed, t0):
     return rc
 
 
-def run_isolated(mod, tier, seed):
-    """run the property's harness in a forked child: the real code is driven in-process (compiled kernels, raw pointers), so a
-    changed library can take the interpreter down; a dead child is a broken correspondence, not an infrastructure failure"""
+def run_isolated(mod, tier, seed, what="run", args=None):
+    """run the property's harness (`run`) or its failing-input search (`search`) in a forked child: the real code is driven
+    in-process (compiled kernels, raw pointers, sizes read from the buffer), so a changed library can take the interpreter down,
+    ask for all the memory of the machine or never return; the child's address space is limited (a huge request raises
+    MemoryError inside the library call), the parent watches its resident size and wall-clock time; a dead or killed child is a
+    broken correspondence, not an infrastructure failure"""
     import multiprocessing as mp
     import pickle
 
@@ -177,7 +180,8 @@ def run_isolated(mod, tier, seed):
 
     def child():
         try:
-            out = mod.run(tier, seed)
+            common.limit_memory()
+            out = mod.run(tier, seed) if what == "run" else list(mod.search(*args))
             wr.send_bytes(pickle.dumps(("ok", out)))
         except common.Infra as e:
             wr.send_bytes(pickle.dumps(("infra", str(e))))
@@ -190,14 +194,38 @@ def run_isolated(mod, tier, seed):
     p.start()
     wr.close()
     data = None
+    killed = None
+    t0 = time.time()
+    limit_s = {"quick": 1800, "thorough": 4 * 3600}.get(tier, 1800)
     try:
-        data = rd.recv_bytes()
+        while True:
+            if rd.poll(1.0):
+                data = rd.recv_bytes()
+                break
+            if not p.is_alive():
+                if rd.poll(0.1):
+                    data = rd.recv_bytes()
+                break
+            try:
+                rss = int(open(f"/proc/{p.pid}/statm").read().split()[1]) * os.sysconf("SC_PAGE_SIZE")
+            except Exception:
+                rss = 0
+            if rss > common.MEM_LIMIT + (4 << 30):
+                killed = f"resident memory {rss >> 30} GiB"
+            elif time.time() - t0 > limit_s:
+                killed = f"no result after {limit_s} s"
+            if killed:
+                p.kill()
+                break
     except EOFError:
         pass
     p.join()
     if data is None:
-        crash = common.Failure("tie", "harness-crash", f"the interpreter running the real code died (exit code {p.exitcode}) while the "
-                               f"harness was driving it: the code no longer behaves like the model on some generated input", {"exitcode": p.exitcode})
+        why = killed or f"exit code {p.exitcode}"
+        crash = common.Failure("tie", "harness-crash", f"the interpreter running the real code died ({why}) while the "
+                               f"harness was driving it: the code no longer behaves like the model on some generated input", {"exitcode": p.exitcode, "killed": killed})
+        if what == "search":
+            return []
         return {"failures": [], "mismatches": [crash], "evaluations": 0, "distinct_nontrivial": 0,
                 "rule": "harness process died", "samples": [], "tags": {}, "crashed": True}
     kind, out = pickle.loads(data)
